@@ -39,6 +39,22 @@ CHECKS = {
             "AVPs, compared on header, AVP class order, carried values and serialise/decode round trip.",
             "Trusted: TLC, ref/command_table.json (hand-verified command codes / Application-IDs; parameter kinds frozen "
             "from the pinned tree), the type-driven value generator.", "4 C09"),
+    "C10": ("TLA+ table invariants of spec/Dict.tla evaluated by TLC over five dictionary tables extracted on every run (tree, "
+            "frozen reference, docs, definitions.py, decode dispatch); TLA+ operators Construct_* (spec/Types.tla) enumerated by "
+            "TLC into in/out-of-domain vectors applied to every class of each type; recorded random constructions validated by TLC",
+            "Function-ness of (vendor, code), V flag rule, agreement of all published tables and dispatch for all 207 classes; "
+            "every class of every data type against width / membership / family / scheme / mandatory-member vectors.",
+            "Trusted: TLC, Json module, ref/avp_dictionary.json (vendored from the pinned tree, cross-read with the docs table), "
+            "the concretisation of abstract inputs. A rejected in-domain value is a recorded non-property difference (the "
+            "statement allows failing with an exception).", "4 C10"),
+    "C11": ("TLA+ state machine spec/Message.tla (ordered list + name map + Message Length) model-checked exhaustively by TLC "
+            "(invariants Coherent, NoDup; action property OrderPreserved; four historic deviations shown to violate Coherent); "
+            "implementation-driven walk of the dumped state graph on real DiameterMessage objects (3 flavours) and a real "
+            "Grouped AVP; TLC trace validation of random 40-step operation sequences recorded from real messages",
+            "Every (implementation-reached state, operation) group of the closed bounded model is executed on the real objects "
+            "(all histories within the bound), and random longer histories are validated step by step by TLC.",
+            "Trusted: TLC, the 150-line adapter (object identity map, key <-> name parsing). Bound: 5 objects, list length 2 "
+            "(quick) / 3 (thorough) for the walk; 8 objects, length 6 for traces.", "4 C11"),
     "C17": ("TLA+ operator Family (long division of the 4-byte word, spec/Types.tla) cross-checked on the model against n div 1000 "
             "for all n in 0..65535; TLC-generated vectors replayed on the integer and answer-object predicates; recorded "
             "predicate results on random 32-bit words validated by TLC",
